@@ -156,18 +156,23 @@ def term_poly(t, p, atoms, modulus_ok=None):
 class Straight(object):
     """Polynomial value numbering of a straight-line arithmetic function body."""
 
-    def __init__(self, p, consts, funcs=None):
+    def __init__(self, p, consts, funcs=None, helpers=None):
         self.p = p
         self.consts = consts      # module-level integer constants {name: int}
         self.funcs = funcs or {}  # name -> callable(list of values) for helper calls (e.g. inv)
+        self.helpers = helpers or {}   # name -> FunctionDef of straight-line helpers, inlined at the call
+        self.depth = 0
 
-    def run(self, fnode, args):
+    def run(self, fnode, args, kwargs=None):
         """args: list of values (Poly or tuple of Poly) bound to the parameters -> return value."""
         env = {}
         names = [a.arg for a in fnode.args.args]
-        if len(names) != len(args):
+        kwargs = kwargs or {}
+        if len(names) != len(args) + len(kwargs) or any(k not in names[len(args):] for k in kwargs) \
+                or fnode.args.vararg or fnode.args.kwarg or fnode.args.kwonlyargs:
             raise AnalysisError("arity mismatch evaluating %s in the polynomial domain" % fnode.name)
         env.update(zip(names, args))
+        env.update(kwargs)
         for st in fnode.body:
             if isinstance(st, ast.Expr) and isinstance(st.value, ast.Constant):
                 continue
@@ -247,6 +252,17 @@ class Straight(object):
                 return v[n.slice.value]
         if isinstance(n, ast.Call) and isinstance(n.func, ast.Name) and n.func.id in self.funcs and not n.keywords:
             return self.funcs[n.func.id]([self.ev(a, env) for a in n.args])
+        if isinstance(n, ast.Call) and isinstance(n.func, ast.Name) and n.func.id in self.helpers \
+                and all(k.arg is not None for k in n.keywords) and not any(isinstance(a, ast.Starred) for a in n.args):
+            if self.depth >= 4:
+                raise AnalysisError("line %d: helper calls nested too deeply in a formula function" % n.lineno)
+            args = [self.ev(a, env) for a in n.args]
+            kwargs = {k.arg: self.ev(k.value, env) for k in n.keywords}
+            self.depth += 1
+            try:
+                return self.run(self.helpers[n.func.id], args, kwargs)
+            finally:
+                self.depth -= 1
         if isinstance(n, ast.IfExp):
             raise AnalysisError("line %d: conditional expression in a formula function" % n.lineno)
         raise AnalysisError("line %d: expression %s is outside the polynomial domain" % (getattr(n, "lineno", 0), type(n).__name__))
